@@ -209,8 +209,18 @@ def crash_states(state, log, stride):
     out = {}
     offset = {}
     for e_idx in range(len(log) + 1):
-        st = apply_effects(state, log[:e_idx])
-        out.setdefault(canon(st), ("effect", e_idx))
+        # boundaries between two write calls on the same file are byte positions of the
+        # stream and are governed by the stride like any other byte
+        mid_stream = (
+            0 < e_idx < len(log)
+            and log[e_idx][0] == "write"
+            and log[e_idx - 1][0] == "write"
+            and log[e_idx - 1][1] == log[e_idx][1]
+        )
+        pos0 = offset.get(log[e_idx][1], 0) if mid_stream else 0
+        if not mid_stream or stride == 1 or pos0 <= 3 or pos0 % stride == 0:
+            st = apply_effects(state, log[:e_idx])
+            out.setdefault(canon(st), ("effect", e_idx))
         if e_idx < len(log) and log[e_idx][0] == "truncate":
             offset[log[e_idx][1]] = 0
         if e_idx < len(log) and log[e_idx][0] == "write":
